@@ -79,9 +79,10 @@ class Probe:
     """Downstream observer.  events = [[kind, value, tid]] in order of call ENTRY ('N' value, 'E' repr, 'C' None).
     overlaps = [[kind, tid, [[kind, tid] of the calls of other threads in flight]]]."""
 
-    def __init__(self, name, raise_at=None, window_factory=None, yield_in_cb=True):
+    def __init__(self, name, raise_at=None, window_factory=None, yield_in_cb=True, dispose_at=None, disposer=None):
         self.name = name
         self.events = []
+        self.times = []  # fake-clock microseconds at call entry, parallel to events
         self.stack = []
         self.overlaps = []
         self.raise_at = raise_at
@@ -89,7 +90,9 @@ class Probe:
         self.children = []
         self.window_factory = window_factory
         self.yield_in_cb = yield_in_cb
-        self.after_dispose = 0
+        self.dispose_at = dispose_at  # call disposer() from inside delivery number dispose_at (on the delivering thread)
+        self.disposer = disposer
+        self.disposed_in_cb = None
 
     def _call(self, kind, value):
         tid = det.current_tid()
@@ -98,6 +101,7 @@ class Probe:
             self.overlaps.append([kind, tid, others])
         idx = len(self.events)
         self.events.append([kind, value, tid])
+        self.times.append(det._clock.us)
         me = (kind, tid)
         self.stack.append(me)
         det.log("cb", self.name, kind, idx)
@@ -111,6 +115,12 @@ class Probe:
                 value.subscribe(child)
                 if self.yield_in_cb:
                     det.yield_point("probe:after-window-subscribe")
+            if self.dispose_at is not None and idx == self.dispose_at and self.disposer is not None:
+                if self.disposer():
+                    self.disposed_in_cb = idx
+                    det.log("cb-disposed", self.name, idx)
+                    if self.yield_in_cb:
+                        det.yield_point("probe:after-dispose")
             if self.raise_at is not None and idx == self.raise_at:
                 self.raised.append(idx)
                 raise Boom(f"{self.name}@{idx}")
@@ -282,6 +292,7 @@ def drive(case, factory, judge, *, culprit, kw=None, nontrivial=None, classes=No
                 raise HarnessError(f"bad sched {sched}")
             n = nt = incomplete = 0
             last = None
+            seen_cl = {}
             for s, res, ctx in runs:
                 if n == 0:
                     det._clock.us = c0[0]
@@ -297,9 +308,12 @@ def drive(case, factory, judge, *, culprit, kw=None, nontrivial=None, classes=No
                     return FAIL(f"{v[0]}|{v[2]}", v[1], classes=[sched["mode"]])
                 nt += bool(nontrivial(ctx, res)) if nontrivial else 0
                 last = (ctx, res)
+                if classes:
+                    for c in classes(ctx, res):  # evidence labels: union over all runs of the case
+                        seen_cl.setdefault(c, None)
             if last is None:
                 return SKIP("budget")
-            cl = [sched["mode"]] + (classes(*last) if classes else [])
+            cl = [sched["mode"]] + list(seen_cl)
             if sched["mode"] == "all":
                 cl += [f"K{sched['K']}"] + [f"runs>={b}" for b in (10, 100, 1000) if n >= b]
             if incomplete:
